@@ -374,26 +374,58 @@ def _params(fn: ast.FunctionDef) -> list:
     return [a.arg for a in fn.args.args if a.arg not in ('self', 'cls')]
 
 
-def _paths(stmts, conds=()):
-    """Flatten `if c: return A` / else / fall-through into [(conditions, returned expression)]; None for other shapes."""
+def _paths(stmts, conds=(), env=None):
+    """Symbolic paths of a straight-line / if / try body: [(conditions, returned expression)], where locals assigned on
+    the way are substituted into the returned expression.  `if c: return A` + fall-through is an if/else; a `try` whose
+    handlers only re-raise is its body; a path that ends in `raise` is dropped.  None for any other statement."""
+    import copy
+    env = dict(env or {})
     out = []
+    stmts = list(stmts)
     for i, st in enumerate(stmts):
-        if _is_doc(st):
+        if _is_doc(st) or isinstance(st, ast.Pass):
             continue
         if isinstance(st, ast.Return):
-            out.append((conds, st.value))
+            v = None if st.value is None else _Subst(env).visit(copy.deepcopy(st.value))
+            out.append((conds, v))
             return out
+        if isinstance(st, ast.Raise):
+            return out
+        if isinstance(st, (ast.Assign, ast.AnnAssign)):
+            tgt = st.targets[0] if isinstance(st, ast.Assign) and len(st.targets) == 1 else getattr(st, 'target', None)
+            if isinstance(tgt, ast.Name) and st.value is not None:
+                env[tgt.id] = _Subst(env).visit(copy.deepcopy(st.value))
+                continue
+            return None
         if isinstance(st, ast.If):
-            a = _paths(st.body, conds + ((st.test, True),))
-            if a is None:
-                return None
-            rest = list(st.orelse) + list(stmts[i + 1:])
-            b = _paths(rest, conds + ((st.test, False),))
-            if b is None:
+            test = _Subst(env).visit(copy.deepcopy(st.test))
+            rest = stmts[i + 1:]
+            a = _paths(list(st.body) + rest, conds + ((test, True),), env)
+            b = _paths(list(st.orelse) + rest, conds + ((test, False),), env)
+            if a is None or b is None:
                 return None
             return out + a + b
+        if isinstance(st, ast.Try):
+            if st.finalbody or not all(h.body and isinstance(h.body[-1], ast.Raise) for h in st.handlers):
+                return None
+            r = _paths(list(st.body) + list(st.orelse) + stmts[i + 1:], conds, env)
+            return None if r is None else out + r
         return None
+    out.append((conds, None))
     return out
+
+
+def _else_after_return(stmts):
+    """`if c: A; return` followed by B  ->  `if c: A else: B` (for bodies made of plain statements, e.g. add_sys)."""
+    stmts = [st for st in stmts if not _is_doc(st)]
+    for i, st in enumerate(stmts):
+        if isinstance(st, ast.If) and not st.orelse and st.body and isinstance(st.body[-1], ast.Return) and st.body[-1].value is None \
+                and stmts[i + 1:]:
+            new = ast.If(test=st.test, body=st.body[:-1], orelse=_else_after_return(stmts[i + 1:]))
+            return stmts[:i] + [ast.copy_location(new, st)]
+    while stmts and isinstance(stmts[-1], ast.Return) and stmts[-1].value is None:
+        stmts = stmts[:-1]
+    return stmts
 
 
 def _flat(stmts):
@@ -837,7 +869,7 @@ def _chain(tr: Tr, side: dict) -> list[str]:
     _base_and_dunders(tr, side)
     # add_sys
     fn = normalise(tr, cls, tr.method(cls, 'add_sys'))
-    stmts = _body(fn)
+    stmts = _else_after_return(_body(fn))
     aps = _params(fn)
     if len(aps) < 2:
         tr.err(fn, 'add_sys: unrecognised signature')
@@ -1121,8 +1153,9 @@ def _cpaths(tr: Tr, cls, paths, fv: str, depth: int) -> str:
         if len(items) == 1 and len(items[0][0]) == level:
             return _cexpr(tr, cls, items[0][1], fv, depth)
         test = items[0][0][level][0]
-        yes = [it for it in items if it[0][level][0] is test and it[0][level][1]]
-        no = [it for it in items if it[0][level][0] is test and not it[0][level][1]]
+        same = lambda it: len(it[0]) > level and ast.dump(it[0][level][0]) == ast.dump(test)
+        yes = [it for it in items if same(it) and it[0][level][1]]
+        no = [it for it in items if same(it) and not it[0][level][1]]
         if len(yes) + len(no) != len(items) or not yes or not no:
             tr.err(test, 'unrecognised decision structure in content helper')
         return _ctest(tr, test, fv, build(yes, level + 1), build(no, level + 1))
@@ -1143,9 +1176,35 @@ def _ctest(tr: Tr, t, fv: str, a: str, b: str) -> str:
     tr.err(t, f'unrecognised test {u[:60]} in a content expression')
 
 
+class _FileInfoSrc(ast.NodeTransformer):
+    """self._get_data(A) / A._data / self.<dict>[...]  ->  the name _FI (where the FileInfo comes from does not matter)."""
+
+    def __init__(self, A, dict_attr):
+        self.A, self.dict_attr, self.n = A, dict_attr, 0
+
+    def _hit(self, node):
+        self.n += 1
+        return ast.copy_location(ast.Name(id='_FI', ctx=ast.Load()), node)
+
+    def visit_Call(self, node):
+        if _dotted(node.func) in ('self._get_data', 'cls._get_data') and len(node.args) == 1 and _name(node.args[0]) == self.A:
+            return self._hit(node)
+        return self.generic_visit(node)
+
+    def visit_Attribute(self, node):
+        if node.attr == '_data' and _name(node.value) == self.A:
+            return self._hit(node)
+        return self.generic_visit(node)
+
+    def visit_Subscript(self, node):
+        if _dotted(node.value) == f'self.{self.dict_attr}':
+            return self._hit(node)
+        return self.generic_visit(node)
+
+
 def _vpk_content(tr: Tr, cls, dict_attr: str, side: dict) -> list[str]:
-    """VPKFileSystem.open_bin / open_str: every return wraps one content expression over the FileInfo, which comes from
-    self._get_data(name) (a File of this system) or from the dictionary."""
+    """VPKFileSystem.open_bin / open_str: on every path the returned stream wraps one content expression over the
+    FileInfo, which comes from self._get_data(name) (a File of this system) or from the dictionary."""
     out = []
     res = {}
     for mname in ('open_bin', 'open_str'):
@@ -1154,38 +1213,28 @@ def _vpk_content(tr: Tr, cls, dict_attr: str, side: dict) -> list[str]:
             tr.err(fn0, f'VPKFileSystem.{mname} is decorated')
         fn = normalise(tr, cls, fn0)
         ps = _params(fn)
-        rets = [n for n in ast.walk(fn) if isinstance(n, ast.Return) and n.value is not None]
-        if not rets:
-            tr.err(fn, f'VPKFileSystem.{mname}: no return')
+        paths = _paths(_body(fn))
+        if not paths or any(e is None for _, e in paths):
+            tr.err(fn, f'VPKFileSystem.{mname}: unrecognised control flow')
         got = set()
-        for r in rets:
-            e = _strip_wrappers(r.value)
+        for _, r in paths:
+            e = _strip_wrappers(r)
             if mname == 'open_str' and isinstance(e, ast.Call) and _dotted(e.func) == 'self.open_bin' and e.args \
                     and _name(e.args[0]) == ps[0]:
                 got.add(res['open_bin'])
                 continue
-            # the FileInfo variable: every Name the expression reads that is assigned in the function
+            src = _FileInfoSrc(ps[0], dict_attr)
+            e = src.visit(e)
             names = {n.id for n in ast.walk(e) if isinstance(n, ast.Name) and n.id not in ('self', 'cls', cls.name)}
-            if len(names) != 1:
-                tr.err(r, f'VPKFileSystem.{mname}: content does not depend on exactly one variable')
-            fv = names.pop()
-            for a in ast.walk(fn):
-                if isinstance(a, ast.Assign) and any(_name(t) == fv for t in a.targets):
-                    src = a.value
-                    ok = (isinstance(src, ast.Call) and _dotted(src.func) in ('self._get_data', 'cls._get_data') and len(src.args) == 1
-                          and _name(src.args[0]) == ps[0]) \
-                        or (isinstance(src, ast.Subscript) and _dotted(src.value) == f'self.{dict_attr}') \
-                        or (isinstance(src, ast.Attribute) and src.attr == '_data' and _name(src.value) == ps[0])
-                    if not ok:
-                        tr.err(a, f'VPKFileSystem.{mname}: {fv} is neither the File\'s data nor a dictionary entry')
-            got.add(_cexpr(tr, cls, e, fv))
+            if names != {'_FI'}:
+                tr.err(fn, f'VPKFileSystem.{mname}: the content {ast.unparse(e)[:80]} does not depend on the FileInfo alone')
+            got.add(_cexpr(tr, cls, e, '_FI'))
         if len(got) != 1:
-            tr.err(fn, f'VPKFileSystem.{mname}: different returns read different things: {sorted(got)}')
+            tr.err(fn, f'VPKFileSystem.{mname}: different paths read different things: {sorted(got)}')
         res[mname] = got.pop()
         out.append(f'Definition vpk_{mname}_content : cexpr := {res[mname]}.')
     side['vpk_content'] = res
     return out
-
 
 
 def _raw(tr: Tr, side: dict) -> list[str]:
